@@ -4,19 +4,27 @@ TECHNIQUE = "CBMC bounded symbolic execution of evdns.c server response construc
 UNITS = ["evdns.c"]
 FUNCTIONS = ["evdns_server_request_add_reply", "evdns_server_request_format_response", "dnsname_to_labels", "dnslabel_table_add", "dnslabel_table_get_pos", "dnslabel_clear", "server_request_free_answers"]
 BOUNDS = ("dnsname_to_labels unit step: arbitrary valid compression table with <= 1 (quick) / 2 (thorough) entries over a message prefix of <= 6 / 10 symbolic "
-          "octets, buffer 16 / 24 with symbolic buf_len, every encodable name of <= 3 / 5 octets; 14-bit range: one suffix registered at a symbolic offset 0..65535.")
-OUT = ("evdns_server_request_format_response as a whole (header flags/counts, section order, record layout, raw RDATA, truncation to max_udp_reply_size with TC, "
-       "counts after truncation): harness_format exists but no configuration finished within 15 min / 12 GB (64 KiB stack buffer; also with the buffer scaled "
-       "to 96 bytes), so the formatter-level clauses are NOT claimed; by reading, truncation cuts the message at max_udp_reply_size mid-record and leaves the "
-       "header counts unchanged (cand.). evdns_server_request_add_reply argument handling, server_send_response, TCP length prefix.")
+          "octets, buffer 16 / 24 with symbolic buf_len, every encodable name of <= 3 / 5 octets; 14-bit range: one suffix registered at a symbolic offset 0..65535. Formatter (reduced): 1 question + 1..3 raw "
+          "records of 2..8 bytes, concrete one-letter names, symbolic id/flags/rcode/type/class/ttl/rdata, sections all-answer / one per section / reverse add order, "
+          "max_udp_reply_size symbolic in [complete length-2, +2], formatter stack buffer scaled to 96 bytes.")
+OUT = ("evdns_server_request_format_response with symbolic names / name-valued RDATA / symbolic section choice (the general harness_format does not finish within "
+       "15 min / 12 GB): the formatter is decided only in the reduced form of fmt_limit_* (concrete distinct one-letter names, raw records of concrete length, "
+       "formatter buffer scaled from 64 KiB to 96 bytes in a driver-made copy of evdns.c, production size outside the bound); compression inside a whole "
+       "response follows from the labels_* induction, not from a whole-message run. Header counts after truncation: the response is cut at max_udp_reply_size "
+       "mid-record with the counts unchanged (reproduced with -DC35_STRICT_TRUNC_COUNTS; obligation fmt_trunc_counts is enabled once known_findings.json "
+       "lists KF-C35-trunc-counts as open). TCP clients (no size limit), EDNS/TCP limits beyond the scaled buffer, server_send_response, TCP length prefix.")
 TEXT = ("Inductive step for name compression: from any message prefix and any compression table whose entries decode (reference decoder) to their text at their "
         "position, one dnsname_to_labels call writes only inside [j, buf_len), returns the end of a name that decodes to the given name, uses only strictly "
         "backward pointers, and leaves a table that again satisfies the invariant; a name is refused only when it does not fit. By induction every name of a "
-        "response decodes to the name added and every pointer refers to an earlier identical suffix. Pointers must denote the registered offset (14-bit range).")
+        "response decodes to the name added and every pointer refers to an earlier identical suffix. Pointers must denote the registered offset (14-bit range). "
+        "Reduced whole-formatter runs: the response decodes to id, flags|QR|rcode, counts per section, the question and the records in section order with their "
+        "rdata, nothing after the last record; TC is set iff the complete response exceeds the client's limit and the message is then cut to exactly the limit; "
+        "nothing leaks.")
 NOTE = ("Trusted: cbmc 6.11, ref/dns_ref.h, literal-size allocator for strdup. Findings (fixes/): C35-labels-terminator-overflow (terminating zero stored at "
         "buf[buf_len]: 1-byte overflow of the formatter's 64 KiB stack buffer), C35-pointer-14bit (suffixes at offsets >= 0x4000 offered for compression). "
         "labels_wf_* exclude the overflow executions and pass on the unpatched tree; labels_all_*, ptr14_* fail without / pass with the patches.")
-ASSUMPTIONS = ["compression-table invariant: entries were registered by dnsname_to_labels from dotted C strings (labels contain no '.' or NUL; backward pointers only)",
+ASSUMPTIONS = ["fmt_limit_*: evdns_server_request_format_response is compiled from a copy of evdns.c whose only change is `unsigned char buf[1024 * 64]` -> `buf[96]` (props/C35.py gen_scaled_source)",
+               "compression-table invariant: entries were registered by dnsname_to_labels from dotted C strings (labels contain no '.' or NUL; backward pointers only)",
                "no allocation failure (a failed strdup only disables compression of that suffix)"]
 DESIGN_REF = "DESIGN.md §5 C35"
 
@@ -74,9 +82,43 @@ def far(name, N, **kw):
              desc="suffix registered via dnslabel_table_add at a symbolic offset 0..65535, same name (<= %d bytes) encoded again: an emitted pointer denotes that offset (14-bit pointer range)" % N)
     d.update(kw); return d
 
+def fmtc(name, R, D=4, sec=1, **kw):
+    """reduced formatter obligation: concrete one-letter distinct names, raw records of concrete length, symbolic bytes/ids/flags/ttl, size limit symbolic
+    in [full-2, full+2]; formatter compiled from the driver's copy of evdns.c whose 64 KiB stack buffer is scaled to 96 bytes"""
+    full = 12 + 7 + R * (13 + D)
+    d = dict(name=name, harness="C35_response.c", entry="harness_format",
+             defines=["C35_N=1", "C35_R=%d" % R, "C35_Q=1", "C35_D=%d" % D, "C35_CONCRETE", "C35_SECMODE=%d" % sec,
+                      "C35_EVDNS_SRC=\"%s\"" % gen_scaled_source(), "C35_FMTBUF=96"],
+             unwind=max(5, R + 2, D + 2), unwindset=["vp_memcpy.0:%d" % (full + 4), "vp_bytes.0:%d" % (D + 2), "harness_format.1:%d" % (D + 2)],
+             timeout=600, mem_gb=4,
+             desc="format_response, 1 question + %d raw record(s) of %d bytes (concrete names, sections mode %d), size limit symbolic around the complete length %d: "
+                  "header/flags/counts/order/rdata decode back, TC iff complete length > limit, cut to the limit" % (R, D, sec, full))
+    d.update(kw); return d
+
+def kf_open(kid):
+    import json
+    try:
+        kf = json.load(open(os.path.join(_VERIF, "known_findings.json")))
+        return any(k.get("id") == kid and k.get("status") == "open" for k in kf.get("findings", []))
+    except Exception:
+        return False
+
+def trunc_counts():
+    d = fmtc("fmt_trunc_counts", 1)
+    d["defines"] = d["defines"] + ["C35_STRICT_TRUNC_COUNTS"]
+    d["expect_fail"] = ["truncated response announces (header counts) records that are not completely present"]
+    d["known_finding"] = "KF-C35-trunc-counts"
+    d["desc"] = "as fmt_limit_r1, and a truncated response must not announce records that are cut off (known finding: counts are left unchanged)"
+    return [d] if kf_open("KF-C35-trunc-counts") else []
+
 def obligations(tier):
-    # harness_format (fmt(...)) is kept for future work; see OUT
+    return _obligations(tier) + trunc_counts()
+
+def _obligations(tier):
+    # the general harness_format (fmt(...), symbolic names) does not finish; see OUT
     if tier == "quick":
-        return [labels("labels_wf_n3_t1", 3, 1, B=16, J0=6, excl=True), labels("labels_all_n3_t1", 3, 1, B=16, J0=6), far("ptr14_n3", 3)]
+        return [labels("labels_wf_n3_t1", 3, 1, B=16, J0=6, excl=True), labels("labels_all_n3_t1", 3, 1, B=16, J0=6), far("ptr14_n3", 3),
+                fmtc("fmt_limit_r1", 1), fmtc("fmt_limit_r2", 2, D=3), fmtc("fmt_limit_r3_rev", 3, D=2, sec=2)]
     return [labels("labels_wf_n4_t2", 4, 2, B=20, J0=8, excl=True, timeout=2400, mem_gb=12), labels("labels_all_n4_t2", 4, 2, B=20, J0=8, timeout=2400, mem_gb=12),
-            labels("labels_wf_n3_t1", 3, 1, B=16, J0=6, excl=True), labels("labels_all_n3_t1", 3, 1, B=16, J0=6), far("ptr14_n5", 5)]
+            labels("labels_wf_n3_t1", 3, 1, B=16, J0=6, excl=True), labels("labels_all_n3_t1", 3, 1, B=16, J0=6), far("ptr14_n5", 5),
+            fmtc("fmt_limit_r1", 1), fmtc("fmt_limit_r2", 2, D=3), fmtc("fmt_limit_r3_rev", 3, D=2, sec=2), fmtc("fmt_limit_r3_d8", 3, D=8, sec=1)]
